@@ -148,14 +148,18 @@ def roles(fn):
         inner = {b['local'] for x in walk(cl) if x.get('k') == 'Block' for st in x.get('stmts', [])
                  if st['k'] == 'Let' for b in _pat_binds(st['pat'])}
         for x in walk(cl['ch'][0] if cl.get('k') == 'Closure' else cl['ch'][1]):
-            if x.get('k') != 'AssignOp' or x['op'] != 'AddAssign':
+            if x.get('k') not in ('AssignOp', 'Assign'):
                 continue
             tg = peel(x['ch'][0])
             if tg.get('k') != 'Path' or tg.get('res') != 'local' or tg['local'] in inner or \
                     tg['local'] in names:
                 continue
             en = dtree.env_at(fn.hir, x, env0)
-            rhs = dtree.canon(x['ch'][1], en)
+            # `x += d` and `x = x + d` are the same accumulation
+            ma = re.fullmatch(r'(.+?) AddAssign (.+)', dtree._assign_str(x, en))
+            if not ma:
+                continue
+            rhs = ma.group(2)
             me = en.get(tg['local'], tg['name'])
             if rhs != '1':
                 names[tg['local']] = 'S[%s]' % rhs
